@@ -4,11 +4,10 @@ from vf.gen import pick_weighted
 from props.b10util import parse_expanded as parse_out, show_out, coq_ops, coq_universe, AbsStore
 
 ID = "C19"
-THEOREMS_FULL = ["C19_base_untouched", "C19_commit_abs", "C19_view_partial", "C19_commit_partial",
+THEOREMS = ["C19_base_untouched", "C19_commit_abs", "C19_view_partial", "C19_commit_partial",
             "C19_view_refuted_iter", "C19_view_refuted_cas_after_remove", "C19_view_refuted_shallow_clear",
             "C19_view_refuted_iter_objects", "C19_commit_refuted_shallow_clear",
             "C19_guard_tight_iter", "C19_guard_tight_cas"]
-THEOREMS = ["C19_base_untouched"]
 MODEL_FILES = ["Txn.v"]
 MODELLED = ("storage/transactional: ReferenceStorage {SetReference, CheckAndSetReference, Reference, IterReferences, "
             "RemoveReference, Commit}, ObjectStorage {SetEncodedObject, HasEncodedObject, EncodedObjectSize, EncodedObject, "
